@@ -1,0 +1,16 @@
+//go:build verif
+
+package keeper
+
+// Contracts for x/oracle/keeper, read by /verif/bin/govc. Comment-only: compiled
+// only with -tags verif and adds no code.
+
+//@ func (k Keeper).transfer(ctx, tipper, tip) (out, err)
+//@ requires [tip_positive] tip.Amount > 0
+//@ requires [tipper_is_not_the_oracle_account] acc(tipper) != module("oracle")
+//@ modifies bank.bal, bank.supply
+//@ ensures [burns_two_percent] err == nil ==> bank.supply == old(bank.supply) - 2*tip.Amount/100
+//@ ensures [oracle_keeps_the_rest] err == nil ==> bank.bal[module("oracle")] == old(bank.bal[module("oracle")]) + tip.Amount - 2*tip.Amount/100
+//@ ensures [tipper_pays_the_tip] err == nil ==> bank.bal[acc(tipper)] == old(bank.bal[acc(tipper)]) - tip.Amount
+//@ ensures [returns_net_tip] err == nil ==> out.Amount == tip.Amount - 2*tip.Amount/100 && out.Denom == tip.Denom
+//@ ensures [other_accounts_untouched] forall a addr :: a != acc(tipper) && a != module("oracle") ==> bank.bal[a] == old(bank.bal[a])
